@@ -1100,6 +1100,58 @@ func (e *CEnv) call(n *ast.CallExpr) *Val {
 			}
 		}
 		e.errf("captured: %s does not capture %s", fname, vname)
+	case "called", "callres":
+		// called("callee"): the (single) call site of that callee in this function was executed on
+		// this path; callres("callee", i): its i-th result. For calls that are not trace events
+		// (e.g. io.Reader.Read): lets a post relate the function's results to the callee's.
+		if e.frame == nil || (fname == "called" && len(n.Args) != 1) || (fname == "callres" && len(n.Args) != 2) {
+			e.errf("%s: bad use", fname)
+		}
+		want := e.strArg(n.Args[0])
+		var site *ssa.Call
+		for _, b := range e.frame.fn.Blocks {
+			for _, in := range b.Instrs {
+				c, ok := in.(*ssa.Call)
+				if !ok {
+					continue
+				}
+				var name string
+				if c.Call.IsInvoke() {
+					name = strings.TrimPrefix(ifaceMethodKey(c.Call.Method), "iface:")
+				} else if sc := c.Call.StaticCallee(); sc != nil {
+					name = fnKey(sc)
+				} else {
+					name = c.Call.Value.Name()
+				}
+				if name == want || strings.HasSuffix(name, "."+want) || strings.HasSuffix(name, want) {
+					if site != nil {
+						e.errf("%s: more than one call site of %s", fname, want)
+					}
+					site = c
+				}
+			}
+		}
+		var got *Val
+		if site != nil {
+			got = e.st.F(e.frame).vals[site]
+		}
+		if fname == "called" {
+			if got != nil {
+				return boolVal(tTrue)
+			}
+			return boolVal(tFalse)
+		}
+		if got == nil {
+			e.errf("callres: %s was not called on this path", want)
+		}
+		idx := int(e.intArg(n.Args[1]))
+		if got.K == KTuple {
+			if idx < 0 || idx >= len(got.Fs) {
+				e.errf("callres: %s has %d results", want, len(got.Fs))
+			}
+			return got.Fs[idx]
+		}
+		return got
 	case "isbound":
 		// isbound(f, "method", recv): f is the method value recv.method
 		if len(n.Args) != 3 {
